@@ -156,8 +156,27 @@ def _pairs_case(j, Constraints, wrap_pairs, y, rng):
   with Quiet():
     r2 = Constraints(y).positive_negative_pairs(
         nreq, same_length=same_length, random_state=seed)
+    # a RandomState seeded alike, and a helper object that was already used
+    # for other requests, must give the same constraints
+    r3 = Constraints(y).positive_negative_pairs(
+        nreq, same_length=same_length,
+        random_state=np.random.RandomState(seed))
+    cobj = Constraints(y)
+    cobj.positive_negative_pairs(max(1, nreq // 2), random_state=seed + 1)
+    try:
+      cobj.chunks(n_chunks=1, chunk_size=1, random_state=seed)
+    except ValueError:
+      pass
+    r4 = cobj.positive_negative_pairs(nreq, same_length=same_length,
+                                      random_state=seed)
   j.check('C07.pairs.reproducible',
           all(np.array_equal(u, v) for u, v in zip((a, b, c, d), r2)), det)
+  j.check('C07.pairs.reproducible',
+          all(np.array_equal(u, v) for u, v in zip((a, b, c, d), r3)),
+          dict(det, how='RandomState(seed) instead of seed'))
+  j.check('C07.pairs.reproducible',
+          all(np.array_equal(u, v) for u, v in zip((a, b, c, d), r4)),
+          dict(det, how='helper object reused after other requests'))
   # wrap_pairs on caller-side points
   X = rng.randn(len(y), 3)
   pairs, lab = wrap_pairs(X, (a, b, c, d))
